@@ -338,8 +338,9 @@ class Logistic(BaseDatafit):
         return grad / len(Xw)
 
     def intercept_update_step(self, y, Xw):
-        # gradient w.r.t. the intercept times the inverse of its Lipschitz constant (1/4)
-        return np.mean(- y * sigmoid(- y * Xw)) * 4
+        # gradient w.r.t. the intercept (a step of size 1 <= 1 / L = 4), like the other
+        # datafits: solvers use its absolute value as the intercept optimality
+        return np.mean(- y * sigmoid(- y * Xw))
 
 
 class QuadraticSVC(BaseDatafit):
